@@ -1,6 +1,7 @@
 package main
 
 import (
+	"math/rand/v2"
 	"sort"
 	"strings"
 
@@ -151,14 +152,15 @@ func damage(c *Ctx, lines []string) ([]string, string) {
 		kind = "overwrite"
 		b := []byte(out[li])
 		for n := 1 + r.IntN(3); n > 0 && len(b) > 0; n-- {
-			b[r.IntN(len(b))] = byte(33 + r.IntN(94))
+			b[r.IntN(len(b))] = damageByte(r)
 		}
 		out[li] = string(b)
 	case 1:
 		kind = "truncate"
-		rs := []rune(out[li])
-		if len(rs) > 1 {
-			out[li] = string(rs[:1+r.IntN(len(rs)-1)])
+		// at any BYTE column: cutting inside a multi-byte character leaves a lead byte
+		// without its continuation bytes at the end of the line
+		if len(out[li]) > 1 {
+			out[li] = out[li][:1+r.IntN(len(out[li])-1)]
 		}
 	case 2:
 		kind = "delete-line"
@@ -197,7 +199,7 @@ func damage(c *Ctx, lines []string) ([]string, string) {
 		n := 1 + r.IntN(12)
 		b := make([]byte, n)
 		for i := range b {
-			b[i] = byte(33 + r.IntN(94))
+			b[i] = damageByte(r)
 		}
 		out[li] = string(b)
 	}
@@ -207,6 +209,20 @@ func damage(c *Ctx, lines []string) ([]string, string) {
 		}
 	}
 	return out, kind
+}
+
+// damageByte: any byte except LF (a damage never creates a line break); half of the time a
+// printable ASCII character, otherwise anything including UTF-8 lead and continuation bytes.
+func damageByte(r *rand.Rand) byte {
+	if r.IntN(2) == 0 {
+		return byte(33 + r.IntN(94))
+	}
+	for {
+		b := byte(r.IntN(256))
+		if b != '\n' {
+			return b
+		}
+	}
 }
 
 // plainDeny: the shapes of G the lexer is known to mis-read (C03's known findings) are kept
